@@ -280,6 +280,9 @@ pub fn judge(case: &Case, obs: &Observation) -> Option<Violation> {
       }
       return Some(failure_violation(f));
    }
+   if check == "C19" {
+      return obs.inline.clone();
+   }
    for (ai, actor) in case.actors.iter().enumerate() {
       let def = program(&actor.program);
       let snaps = actor_snaps(obs, ai);
